@@ -95,7 +95,7 @@ class TLCResult:
 
 def _tlc_cmd(module, cfg, workers, extra, jvm):
     cmd = ['java', '-XX:+UseParallelGC', '-Xss64m'] + list(jvm) + ['-cp', JAR_CP, 'tlc2.TLC']
-    cmd += ['-workers', str(workers), '-noGenerateSpecTE', '-config', cfg]
+    cmd += ['-workers', str(workers), '-noGenerateSpecTE', '-checkpoint', '0', '-config', cfg]      # no checkpoints: long validations (> 30 min) would otherwise try one, which the depth-first queue cannot do
     cmd += list(extra) + [module]
     return cmd
 
